@@ -1065,7 +1065,7 @@ GROUPS["C09"] = [G_KR_TREE] + [g for g in CB_ROOT_GROUPS if g.name.endswith(".lo
 PROPS = {
     "C15": dict(
         level="other",
-        explanation="Union-find operations, Kruskal's greedy step and loop, the root choice / per-call resets and the local lowest-pass step of "
+        explanation="Union-find operations, Kruskal's greedy step and its tree / reset slice, the root choice / per-call resets and the local lowest-pass step of "
                     "connect_basins are decided by unbounded contracts (ghost-element idiom); that the resulting tree is a MINIMUM spanning tree is "
                     "Kruskal's theorem on top of these (unmechanised); the global lowest-pass statement is not covered.",
         assumptions=UF_MODEL_ASSUMPTIONS + [
